@@ -214,6 +214,7 @@ fn main() {
     generate_code(&ucd_path, out_path);
 
     println!("cargo:rerun-if-changed=build.rs");
+    println!("cargo:rustc-check-cfg=cfg(precis_verif)");
 }
 
 #[cfg(not(feature = "networking"))]
@@ -227,4 +228,5 @@ fn main() {
     generate_code(&ucd_path, out_path);
 
     println!("cargo:rerun-if-changed=build.rs");
+    println!("cargo:rustc-check-cfg=cfg(precis_verif)");
 }
